@@ -478,7 +478,7 @@ func probeRestartNoop(t *testing.T, setup func(f *fhub)) {
 }
 
 // F14 (fixed): DeleteClientAccessControls wrote the client registry into acls.json.
-func TestVerifProbe_F14(t *testing.T) {
+func TestVerifProbe_F14_restart(t *testing.T) {
 	probeRestartNoop(t, func(f *fhub) {
 		for _, c := range []string{"c1", "c2"} {
 			f.Core.RegisterClient(&security.ClientInfo{ClientID: c, PublicKey: []byte("k")})
@@ -490,7 +490,7 @@ func TestVerifProbe_F14(t *testing.T) {
 
 // F14b (fixed): Init stopped at the first missing file: ACLs for a subject that
 // is not a registered client were not loaded after restart.
-func TestVerifProbe_F14b(t *testing.T) {
+func TestVerifProbe_F14b_restart(t *testing.T) {
 	probeRestartNoop(t, func(f *fhub) {
 		f.Core.SetClientAccessControls("subject-without-client-record", []*security.AccessControl{{Resource: "/jobs", Action: "write", Deny: true}})
 	})
